@@ -630,3 +630,199 @@ Proof.
   pose proof (upd_positions_mid j v (skipn k (skipn lo b)) mid (firstn lo b)) as H.
   rewrite Hl in H. rewrite <- Hb in H. exact H.
 Qed.
+
+(* ---------------- depth round: assignment as the list operation, extended slices, basket first axis ---------------- *)
+(* seq[a:b:c] = v is exactly list assignment on the residue list, for every slice *)
+Lemma seq_setitem_is_list_assign s sl v :
+  seq_setitem s (ISlice sl) v = match setslice (data s) sl v with Ok r => Ok (set_data s r) | Err e => Err e end.
+Proof.
+  unfold seq_setitem, chars. rewrite setslice_map. destruct (setslice (data s) sl v) as [r|e]; [|reflexivity].
+  fold (chars r). rewrite concat_chars. reflexivity.
+Qed.
+
+Lemma seq_setitem_extended s sl v start stop step n :
+  slice_indices (Z.of_nat (length (data s))) sl = Some (start, stop, step, n) -> step <> 1 ->
+  (Z.of_nat (length v) <> n -> seq_setitem s (ISlice sl) v = Err ValueError) /\
+  (Z.of_nat (length v) = n -> exists r, seq_setitem s (ISlice sl) v = Ok (mkseq r (sid s)) /\ length r = length (data s) /\
+     (forall k, (k < length v)%nat -> nth_error r (Z.to_nat (start + Z.of_nat k * step)) = nth_error v k) /\
+     (forall p, (forall k, (k < length v)%nat -> p <> Z.to_nat (start + Z.of_nat k * step)) -> nth_error r p = nth_error (data s) p)).
+Proof.
+  intros Hsi H1. rewrite seq_setitem_is_list_assign.
+  destruct (setslice_extended (data s) v sl start stop step n Hsi H1) as [HE HO]. split.
+  - intros Hv. rewrite (HE Hv). reflexivity.
+  - intros Hv. destruct (HO Hv) as (r & Hr & Hrest). exists r. rewrite Hr. split; [reflexivity|exact Hrest].
+Qed.
+
+(* basket[i] = x: a new BioSeq (constructor-normalised, empty id for a str value) replaces element i *)
+Lemma basket_set_int_spec b i v :
+  match getitem b i with
+  | Ok s => exists b1 b2, b = b1 ++ s :: b2 /\
+            Z.of_nat (length b1) = (if i <? 0 then i + Z.of_nat (length b) else i) /\
+            basket_set_int b i v = Ok (b1 ++ new_seq v [] :: b2)
+  | Err e => basket_set_int b i v = Err e
+  end.
+Proof.
+  unfold basket_set_int. destruct (getitem b i) as [s|e] eqn:E.
+  - destruct (setitem_int_spec b i (new_seq v []) s E) as (b1 & b2 & H1 & H2 & H3). exists b1, b2. auto.
+  - apply setitem_int_err. exact E.
+Qed.
+
+(* basket[a:b] = xs (contiguous): splice; basket[a:b:c] = xs: ValueError unless sizes match, else element-wise *)
+Lemma basket_set_slice_contig b sl vs : contiguous sl = true ->
+  let len := Z.of_nat (length b) in
+  let lo := lo_of len (sl_start sl) in let hi := hi_of len (sl_stop sl) in
+  basket_set_slice b sl vs =
+    Ok (firstn (Z.to_nat lo) b ++ map (fun v => new_seq v []) vs ++ skipn (Z.to_nat (Z.max hi lo)) b).
+Proof. intros Hc. unfold basket_set_slice. apply setslice_contig. exact Hc. Qed.
+
+Lemma basket_set_slice_extended b sl vs start stop step n :
+  slice_indices (Z.of_nat (length b)) sl = Some (start, stop, step, n) -> step <> 1 ->
+  (Z.of_nat (length vs) <> n -> basket_set_slice b sl vs = Err ValueError) /\
+  (Z.of_nat (length vs) = n -> exists r, basket_set_slice b sl vs = Ok r /\ length r = length b /\
+     (forall k, (k < length vs)%nat ->
+        nth_error r (Z.to_nat (start + Z.of_nat k * step)) = option_map (fun v => new_seq v []) (nth_error vs k)) /\
+     (forall p, (forall k, (k < length vs)%nat -> p <> Z.to_nat (start + Z.of_nat k * step)) -> nth_error r p = nth_error b p)).
+Proof.
+  intros Hsi H1. unfold basket_set_slice.
+  destruct (setslice_extended b (map (fun v => new_seq v []) vs) sl start stop step n Hsi H1) as [HE HO].
+  rewrite map_length in *. split; [exact HE|].
+  intros Hv. destruct (HO Hv) as (r & Hr & HL & HN & HP). exists r. split; [exact Hr|]. split; [exact HL|]. split.
+  - intros k Hk. rewrite HN by exact Hk. apply nth_error_map.
+  - exact HP.
+Qed.
+
+(* the partial-update variant used by histories agrees with upd_positions when nothing raises *)
+Lemma upd_positions_st_agree j v : forall ps b,
+  upd_positions b ps j v = match upd_positions_st b ps j v with (b', None) => Ok b' | (_, Some e) => Err e end.
+Proof.
+  induction ps as [|p ps IH]; intros b; cbn [upd_positions upd_positions_st]; [reflexivity|].
+  destruct (nth_error b p) as [s|]; [|reflexivity].
+  destruct (seq_setitem s j v) as [s'|e]; [apply IH|reflexivity].
+Qed.
+
+(* seqs[a:b:c, j] = x for EVERY first-axis slice: exactly the selected positions are assigned *)
+Lemma getslice_seq_positions n sl ps : getslice (seq 0 n) sl = Ok ps ->
+  NoDup ps /\ (forall p, In p ps -> (p < n)%nat).
+Proof.
+  intros H. split.
+  - destruct (slice_indices (Z.of_nat (length (seq 0 n))) sl) as [[[[a b] c] m]|] eqn:E.
+    + destruct (getslice_spec (seq 0 n) sl a b c m E) as (r & Hr & Hlen & Hnth).
+      rewrite H in Hr. inversion Hr; subst r.
+      destruct (slice_indices_range _ sl a b c m (Nat2Z.is_nonneg _) E) as (Hc & Hm & Hrange).
+      rewrite seq_length in Hrange.
+      apply NoDup_nth_error. intros i k Hi Hik.
+      assert (Hk : (k < length ps)%nat).
+      { apply nth_error_Some. rewrite <- Hik. apply nth_error_Some. exact Hi. }
+      rewrite (Hnth i) in Hik by lia. rewrite (Hnth k) in Hik by lia.
+      pose proof (Hrange (Z.of_nat i) ltac:(lia)) as Ri. pose proof (Hrange (Z.of_nat k) ltac:(lia)) as Rk.
+      rewrite !nth_error_nth' with (d := 0%nat) in Hik by (rewrite seq_length; lia).
+      rewrite !seq_nth in Hik by lia. inversion Hik as [Heq].
+      assert (Z.of_nat i * c = Z.of_nat k * c) by lia.
+      assert (Z.of_nat i = Z.of_nat k) by nia. lia.
+    + unfold getslice in H. rewrite E in H. discriminate.
+  - intros p Hp. apply getslice_incl in H. apply H in Hp. apply in_seq in Hp. lia.
+Qed.
+
+Lemma upd_positions_spec j v : forall ps b r, NoDup ps -> (forall p, In p ps -> (p < length b)%nat) ->
+  upd_positions b ps j v = Ok r ->
+  length r = length b /\
+  (forall p, In p ps -> exists s s', nth_error b p = Some s /\ seq_setitem s j v = Ok s' /\ nth_error r p = Some s') /\
+  (forall p, ~ In p ps -> nth_error r p = nth_error b p).
+Proof.
+  induction ps as [|q ps IH]; intros b r Hnd Hlt H; cbn [upd_positions] in H.
+  - inversion H; subst. split; [reflexivity|]. split; [intros p []|reflexivity].
+  - inversion Hnd as [|? ? Hq Hnd']; subst.
+    destruct (nth_error b q) as [s|] eqn:Eq; [|discriminate].
+    destruct (seq_setitem s j v) as [s'|e] eqn:Es; [|discriminate].
+    set (b' := set_nth b q s') in *.
+    assert (Hl' : length b' = length b) by apply set_nth_length.
+    assert (Hlt' : forall p, In p ps -> (p < length b')%nat) by (intros p Hp; rewrite Hl'; apply Hlt; right; exact Hp).
+    destruct (IH b' r Hnd' Hlt' H) as (IL & II & IO).
+    split; [lia|]. split.
+    + intros p [->|Hp].
+      * exists s, s'. split; [exact Eq|]. split; [exact Es|].
+        rewrite IO by exact Hq. apply set_nth_same. apply Hlt. left; reflexivity.
+      * destruct (II p Hp) as (t & t' & H1 & H2 & H3). exists t, t'.
+        split; [|split; assumption].
+        rewrite <- H1. symmetry. apply set_nth_other. intros ->. contradiction.
+    + intros p Hp. rewrite IO by (intros Hin; apply Hp; right; exact Hin).
+      apply set_nth_other. intros ->. apply Hp. left; reflexivity.
+Qed.
+
+Lemma getslice_map {A B} (f : A -> B) (l : list A) sl :
+  getslice (map f l) sl = match getslice l sl with Ok r => Ok (map f r) | Err e => Err e end.
+Proof.
+  unfold getslice. rewrite map_length.
+  destruct (slice_indices (Z.of_nat (length l)) sl) as [[[[a b] c] n]|]; [|reflexivity].
+  destruct (n <=? 0); [reflexivity|]. destruct (c =? 1).
+  - rewrite skipn_map, firstn_map. reflexivity.
+  - f_equal. generalize (Z.to_nat n) as m. intros m. revert a.
+    induction m as [|m IH]; intros a; [reflexivity|]. cbn [take_step].
+    rewrite nth_error_map. destruct (nth_error l (Z.to_nat a)); [|reflexivity]. cbn [option_map map]. rewrite IH. reflexivity.
+Qed.
+
+Lemma basket_set_slj_any b sl j v r : basket_set_slj b sl j v = Ok r ->
+  exists ps, getslice (seq 0 (length b)) sl = Ok ps /\
+    getslice b sl = Ok (map (fun p => nth p b (mkseq [] [])) ps) /\
+    length r = length b /\
+    (forall p, In p ps -> exists s s', nth_error b p = Some s /\ seq_setitem s j v = Ok s' /\ nth_error r p = Some s') /\
+    (forall p, ~ In p ps -> nth_error r p = nth_error b p).
+Proof.
+  unfold basket_set_slj. destruct (getslice (seq 0 (length b)) sl) as [ps|e] eqn:E; [|discriminate].
+  intros H. exists ps. split; [reflexivity|].
+  destruct (getslice_seq_positions _ _ _ E) as [Hnd Hlt]. split.
+  - assert (Hb : b = map (fun p => nth p b (mkseq [] [])) (seq 0 (length b))).
+    { clear. induction b as [|x b IH] using rev_ind; [reflexivity|].
+      rewrite app_length, Nat.add_comm. cbn [length Nat.add]. rewrite seq_S, map_app. cbn [map Nat.add].
+      rewrite app_nth2 by lia. rewrite Nat.sub_diag. cbn [nth]. f_equal.
+      rewrite IH at 1. apply map_ext_in. intros p Hp. apply in_seq in Hp. rewrite app_nth1 by lia. reflexivity. }
+    rewrite Hb at 1. rewrite getslice_map, E. reflexivity.
+  - apply (upd_positions_spec j v ps b r Hnd Hlt H).
+Qed.
+
+(* ---------------- exact rationals ---------------- *)
+From Coq Require Import QArith.
+Local Open Scope Q_scope.
+
+Lemma Qsum_common (f : byte -> nat) (t : positive) (l : list byte) :
+  fold_right Qplus 0 (map (fun c => Z.of_nat (f c) # t) l) == Z.of_nat (list_sum (map f l)) # t.
+Proof.
+  induction l as [|c l IH]; [reflexivity|].
+  cbn [map fold_right]. rewrite IH. rewrite Qinv_plus_distr.
+  change (list_sum (f c :: map f l)) with (f c + list_sum (map f l))%nat. rewrite Nat2Z.inj_add. reflexivity.
+Qed.
+
+Lemma counter_total_sum k : counter_total k = list_sum (map k all_bytes).
+Proof.
+  unfold counter_total, counter_items. rewrite fold_add_sum, sum_filter_nz, map_map. reflexivity.
+Qed.
+
+Lemma Qself n : (0 < n)%nat -> Z.of_nat n # Pos.of_nat n == 1.
+Proof. intros H. unfold Qeq. cbn [Qnum Qden]. rewrite Nat2Pos.inj_compare || idtac. lia. Qed.
+
+(* probabilities: each is count/total, they sum to 1 *)
+Lemma prob_spec b k : countall b = Ok k -> (0 < length (concat (map data b)))%nat ->
+  (forall c, prob_of k c == Z.of_nat (count c (concat (map data b))) # Pos.of_nat (length (concat (map data b)))) /\
+  fold_right Qplus 0 (map (prob_of k) all_bytes) == 1.
+Proof.
+  intros H Hpos. assert (Hb : b <> []) by (intros ->; discriminate).
+  destruct (countall_spec b Hb) as (k' & Hk' & Hc). rewrite H in Hk'. inversion Hk'; subst k'.
+  destruct (countall_total b k H) as [Ht _]. split.
+  - intros c. unfold prob_of. rewrite Ht, Hc. reflexivity.
+  - unfold prob_of. rewrite Qsum_common. rewrite <- counter_total_sum, Ht. apply Qself. exact Hpos.
+Qed.
+
+Lemma gc_fraction_spec s :
+  let gcn := (count "G"%byte s + count "C"%byte s)%nat in
+  let atn := (count "A"%byte s + count "T"%byte s + count "U"%byte s)%nat in
+  ((gcn + atn = 0)%nat -> gc_fraction s == 0) /\
+  ((0 < gcn + atn)%nat -> gc_fraction s == Z.of_nat gcn # Pos.of_nat (gcn + atn)) /\
+  0 <= gc_fraction s <= 1.
+Proof.
+  intros gcn atn. unfold gc_fraction, gc_counts. cbn [fst snd]. fold gcn. fold atn.
+  destruct (Nat.eqb (gcn + atn) 0) eqn:E.
+  - apply Nat.eqb_eq in E. split; [intros _; reflexivity|]. split; [intros H; lia|].
+    split; unfold Qle; cbn; lia.
+  - apply Nat.eqb_neq in E. split; [intros H; lia|]. split; [intros _; reflexivity|].
+    split; unfold Qle; cbn [Qnum Qden]; lia.
+Qed.
